@@ -422,8 +422,11 @@ def recorded_transmission(sp):
     L = []
     T = service.ID_TTX
 
+    marks = []      # start index of every page (recorded_transmission.marks: the pages as blocks, for the order permutations)
+
     def page(pg, sub, rows, x26=0, extra=()):
         m = pg >> 8
+        marks.append(len(L))
         cz.open[m & 7] = pg
         L.append((T, 7, ttx.header(pg, sub, ttx.C4_ERASE)))
         for grp in rows:
@@ -444,6 +447,8 @@ def recorded_transmission(sp):
     page(0x100, 0, [1, 2, 3, 4, 5], x26=3, extra=[(27, 0), (28, 0)])
     page(0x101, 0, [1, 2, 3], x26=1, extra=[(27, 4), (29, 0)])
     page(0x150, 1, [1, 2], x26=1)             # DRCS characters, no X/28
+    marks.append(len(L))
+    recorded_transmission.marks = list(marks)
     L.append((T, 7, ttx.header(0x1FF, 0x3F7F, 0)))
     L.append((service.ID_VPS, 16, list(bytes.fromhex(sp[("vps", "a")]))))
     L.append((service.ID_VPS, 16, list(bytes.fromhex(sp[("vps", "a")]))))
@@ -533,6 +538,35 @@ def directed_items(sp):
         for lv in (1, 2, 3):
             add("page %s level %d held across a retransmission" % (pg, lv), tx + ["F %s 3f7f %d 19 1" % (pg, lv)] + tx + ["W 0", "W 3", "K", "P", "E png", "E html", "E text"])
     add("every read-side call on the recorded transmission", tx + READS + ["H", "D 0 0"] + tx + READS)
+    # the pages of the recorded transmission in other orders (a page that is the TARGET of a link - AIT of the BTT, POP / DRCS of the
+    # MOT, the pages of X/27/4 links - received before or long after the page that names it), every read-side call between any two
+    # pages: the decoder then finds the target cached with another function, not yet converted, or missing
+    mk = recorded_transmission.marks
+    blocks = [tx[mk[i]:mk[i + 1]] for i in range(len(mk) - 1)]
+    filler, tail = tx[mk[-1]:mk[-1] + 1], tx[mk[-1] + 1:]
+    orders = [("reversed", list(reversed(range(len(blocks)))))]
+    for k in range(len(blocks)):
+        orders.append(("page %d first" % k, [k] + [i for i in range(len(blocks)) if i != k]))
+        orders.append(("page %d last" % k, [i for i in range(len(blocks)) if i != k] + [k]))
+    for name, order in orders:
+        body = []
+        for i in order:
+            body += blocks[i] + filler + READS
+        add("pages in another order (%s), every read-side call after every page" % name, body + tail + READS + tx + READS, repeats=1)
+    # rolling pages: one page number transmitted over and over with changing subcodes (0000 between subpage numbers, clock
+    # subcodes, subpage numbers 01..03 in a cycle) with and without the erase flag - the cache must settle, not keep one more copy per cycle
+    def D(pk):
+        return "D 0 1 %x %x %s" % (service.ID_TTX, 7, service.hx(pk))
+    for erase in (ttx.C4_ERASE, 0):
+        for name, subs in (("0000 / 0001", [0, 1]), ("0000 / 0001 / 0002 / 0003", [0, 1, 0, 2, 0, 3]), ("clock subcodes", [0x1200, 0x1201, 0, 0x1202]),
+                           ("subpages 01..03", [1, 2, 3])):
+            cyc = []
+            for pg in (0x123, 0x1AB):
+                for k, sub in enumerate(subs):
+                    cyc += [D(ttx.header(pg, sub, erase)), D(ttx.row(1, 1, [0x41 + k] * 40)), D(ttx.row(1, 2, [0x61 + (k % 26)] * 40)),
+                            D(ttx.filler_header(1))]
+            add("rolling page, subcodes %s, erase flag %s" % (name, "set" if erase else "clear"),
+                cyc + ["F 123 3f7f 1 19 0", "U", "Y 123"], repeats=5)
     # caption: every miscellaneous control code in every mode, before and after a roll-up command
     P = ttx.par8
     ccs = []
